@@ -6,7 +6,8 @@
 From Coq Require Import ZArith QArith Qabs List Bool.
 From QV Require Import Model.Num Model.Rounding Model.Quantity Model.Rates Model.Hash
      Model.Dim Model.Term Proofs.QuantityProofs Proofs.C19Proofs Proofs.C07Sem Proofs.C07Reduce
-     Proofs.C07Shape Proofs.C07Canon Proofs.C07Proofs.
+     Proofs.C07Shape Proofs.C07Canon Proofs.C07Proofs
+     Model.Registry Proofs.DirectoryProofs Proofs.C02Proofs Proofs.ViewInv Gen.HashImpl Proofs.GenHashEq.
 
 (* quantities: across different units of their type (1 km and 1000 m), decimal
    or fraction amounts alike (amounts are rationals); no converter registered *)
@@ -42,6 +43,35 @@ Print Assumptions C19_terms.
 Theorem C19_rates : forall a b, rate_eqb a b = true -> hk_eqb (rate_hash a) (rate_hash b) = true.
 Proof. exact rate_eq_hash. Qed.
 Print Assumptions C19_rates.
+
+(* the hash keys of the model ARE what the code hands to hash(): Unit.__hash__,
+   Quantity.__hash__ and ExchangeRate.__hash__ (with quotation, rate) are
+   re-translated on every run (Gen/HashImpl.v, fail-closed translator
+   translate/hashes.py).  The code tests only whether the unit has a scale; the
+   model also asks for the type's reference unit; they agree wherever a scale
+   exists only in types with a reference unit, which holds for the views of every
+   unit of every reachable directory *)
+Theorem C19_model_is_translated_code :
+  (forall u, scale_needs_ref u -> unit_hash_impl u = unit_hash u) /\
+  (forall p, scale_needs_ref (q_unit p) -> qty_hash_impl p = qty_hash p) /\
+  (forall r, rate_hash_impl r = rate_hash r).
+Proof.
+  split; [exact unit_hash_impl_eq|]. split; [exact qty_hash_impl_eq | exact rate_hash_impl_eq].
+Qed.
+Print Assumptions C19_model_is_translated_code.
+
+Theorem C19_translated_code_in_every_reachable_directory : forall dm s u a,
+  Reach dm s -> In u (st_units s) ->
+  unit_hash_impl (view s u) = unit_hash (view s u) /\
+  qty_hash_impl (mkQty a (view s u)) = qty_hash (mkQty a (view s u)).
+Proof.
+  intros dm s u a R Iu.
+  assert (H : scale_needs_ref (view s u)).
+  { intros Hs. assert (L : lin (view s u) = true) by (apply (view_lin dm s u R Iu); exact Hs).
+    unfold lin in L. apply andb_true_iff in L. exact (proj1 L). }
+  split; [apply unit_hash_impl_eq, H | apply qty_hash_impl_eq, H].
+Qed.
+Print Assumptions C19_translated_code_in_every_reachable_directory.
 
 (* non-vacuity: 1 km == 1000 m with equal keys *)
 Definition ex_km := mkUnit 2 3 true (Some (1000 # 1)) None.
